@@ -28,12 +28,18 @@ def setup(root):
 DIFF = [False]      # also ask for the incremental parser (cache=True, diff_cache=True): it looks at the memory entry the load left behind
 
 
+SLOW = [0]
+
+
 def parse_cached(g, path, cdir):
+    # a damaged pickle can make pickle.load itself run for minutes (a flipped length field); the property says nothing about time, so such a
+    # state is counted (coverage: slow_states) and skipped instead of stalling the check
     with warnings.catch_warnings():
         warnings.simplefilter('ignore')
-        if DIFF[0]:
-            return g.parse(path=path, cache=True, diff_cache=True, cache_path=cdir)
-        return g.parse(path=path, cache=True, cache_path=cdir)
+        with common.time_limit(15):
+            if DIFF[0]:
+                return g.parse(path=path, cache=True, diff_cache=True, cache_path=cdir)
+            return g.parse(path=path, cache=True, cache_path=cdir)
 
 
 def check_state(ctx, g, path, code, cdir, ppath, name, fresh_sig, detail):
@@ -42,6 +48,10 @@ def check_state(ctx, g, path, code, cdir, ppath, name, fresh_sig, detail):
     ctx.count('crash-states')
     try:
         m = parse_cached(g, path, cdir)
+    except common.CaseTimeout:
+        SLOW[0] += 1
+        ctx.cov['slow_states'] = SLOW[0]
+        return False
     except Exception as e:
         return ctx.violation('C17:parse-raises-on-%s:%s' % (name, type(e).__name__),
                              dict(kind='faults', state=name, detail=detail, exception=preds.crash_sig(e), module=code))
@@ -97,6 +107,18 @@ print('OK')
 
 
 def run(ctx, b, drv):
+    # a flipped bit in a length field makes pickle.load ask for gigabytes (and spend minutes filling them, inside C code that no signal
+    # interrupts): with an address-space limit the allocation fails at once with MemoryError, which the loader treats like any other damage
+    import resource
+    soft, hard = resource.getrlimit(resource.RLIMIT_AS)
+    resource.setrlimit(resource.RLIMIT_AS, (3 << 30, hard))
+    try:
+        return run_limited(ctx, b, drv)
+    finally:
+        resource.setrlimit(resource.RLIMIT_AS, (soft, hard))
+
+
+def run_limited(ctx, b, drv):
     pend = base.Pending(ctx)
     base.obligations(ctx, b, pend, ['CacheCrash.v', 'Properties/C17.v'])
     root = os.path.join(common.WORK, 'c17-%d' % os.getpid())
@@ -154,7 +176,7 @@ def run(ctx, b, drv):
                     ctx.count('crash-states')
                     try:
                         parse_cached(g, path, cdir)
-                    except RecursionError:
+                    except (RecursionError, common.CaseTimeout):
                         pass
                     except Exception as e:
                         ctx.violation('C17:parse-raises-on-%s:%s' % (name, type(e).__name__),
